@@ -60,11 +60,22 @@ _state = {"installed": False, "seg": None, "sim": None}
 
 # --------------------------------------------------------------------------
 # oracle: enumeration of all strictly increasing lists 0 .. N-1
-def enumerate_optima(C, N):
+_cache = {"key": None, "val": None}
+
+
+def enumerate_optima(C, N, with_ties=False):
     """C: list of lists (at least N x N).  Returns (min, argmin list, max,
-    argmax list) over all strictly increasing index lists from 0 to N-1."""
+    argmax list) over all strictly increasing index lists from 0 to N-1
+    (plus the number of lists attaining each, exactly, when with_ties).
+    The last matrix enumerated is remembered (one slot): the contract and the
+    property module look at the same matrix several times."""
+    key = (N, repr([row[:N] for row in C[:N]]))
+    if _cache["key"] == key:
+        v = _cache["val"]
+        return v if with_ties else v[:4]
     bmin = bmax = None
     lmin = lmax = None
+    nmin = nmax = 0
     last = N - 1
     for mask in range(1 << (N - 2)):
         prev = 0
@@ -75,13 +86,19 @@ def enumerate_optima(C, N):
                 prev = b + 1
         s += C[prev][last]
         if bmin is None or s < bmin:
-            bmin, lmin = s, mask
+            bmin, lmin, nmin = s, mask, 1
+        elif s == bmin:
+            nmin += 1
         if bmax is None or s > bmax:
-            bmax, lmax = s, mask
+            bmax, lmax, nmax = s, mask, 1
+        elif s == bmax:
+            nmax += 1
 
     def tolist(mask):
         return [0] + [b + 1 for b in range(N - 2) if (mask >> b) & 1] + [last]
-    return bmin, tolist(lmin), bmax, tolist(lmax)
+    v = (bmin, tolist(lmin), bmax, tolist(lmax), nmin, nmax)
+    _cache["key"], _cache["val"] = key, v
+    return v if with_ties else v[:4]
 
 
 def check_partition(C, N, mode, result):
@@ -292,28 +309,26 @@ FAMS = ["uniform", "smallint", "signed", "sparse", "uniform", "smallint", "huge"
 
 def chunks(tier, seed):
     out = []
-    for N in (2, 3, 4):
-        out.append({"kind": "exh", "N": N, "vals": [0.0, 1.0, 2.0], "shard": 0, "of": 1, "stride": 1,
-                    "key": "exh%d" % N})
     sz = SIZES[tier]
-    for k in range(8):
-        out.append({"kind": "exh", "N": 5, "vals": [0.0, 1.0, 2.0], "shard": k, "of": 8, "stride": sz["st5"],
+    out.append({"kind": "exh", "Ns": [2, 3, 4], "vals": [0.0, 1.0, 2.0], "shard": 0, "of": 1, "stride": 1,
+                "key": "exh2-4"})
+    for k in range(4):
+        out.append({"kind": "exh", "Ns": [5], "vals": [0.0, 1.0, 2.0], "shard": k, "of": 4, "stride": sz["st5"],
                     "key": "exh5_%d" % k})
-    for k in range(4):
-        out.append({"kind": "exh", "N": 6, "vals": [0.0, 1.0], "shard": k, "of": 4, "stride": sz["st6"],
-                    "key": "exh6_%d" % k})
-    for k in range(16):
-        out.append({"kind": "rnd", "family": FAMS[k % len(FAMS)], "n": sz["rnd"], "key": "rnd%d" % k})
-    for k in range(6):
-        out.append({"kind": "seg", "n": sz["seg"], "key": "seg%d" % k})
-    for k in range(4):
-        out.append({"kind": "free", "n": sz["free"], "key": "free%d" % k})
     for k in range(2):
-        out.append({"kind": "osimp", "n": sz["osimp"], "key": "osimp%d" % k})
-    for k in range(6):
-        out.append({"kind": "s456", "n": sz["s456"], "key": "s456_%d" % k})
-    for k in range(6):
-        out.append({"kind": "stops", "n": sz["stops"], "key": "stops%d" % k})
+        out.append({"kind": "exh", "Ns": [6], "vals": [0.0, 1.0], "shard": k, "of": 2, "stride": sz["st6"],
+                    "key": "exh6_%d" % k})
+    for k in range(8):
+        out.append({"kind": "rnd", "family": FAMS[k % len(FAMS)], "n": 2 * sz["rnd"], "key": "rnd%d" % k})
+    for k in range(3):
+        out.append({"kind": "seg", "n": 2 * sz["seg"], "key": "seg%d" % k})
+    for k in range(2):
+        out.append({"kind": "free", "n": 2 * sz["free"], "key": "free%d" % k})
+    out.append({"kind": "osimp", "n": 2 * sz["osimp"], "key": "osimp0"})
+    for k in range(3):
+        out.append({"kind": "s456", "n": 2 * sz["s456"], "key": "s456_%d" % k})
+    for k in range(3):
+        out.append({"kind": "stops", "n": 2 * sz["stops"], "key": "stops%d" % k})
     return out
 
 
@@ -351,11 +366,13 @@ def cases(chunk):
     rng = gen.rng_for(PROP, chunk)
     kind = chunk["kind"]
     if kind == "exh":
-        N, vals = chunk["N"], chunk["vals"]
-        total = len(vals) ** n_upper(N)
-        step = chunk["of"] * chunk["stride"]
-        for idx in range(chunk["shard"] * chunk["stride"], total, step):
-            yield {"kind": "mat", "N": N, "upper": upper_from_index(N, idx, vals), "diag": None, "src": "exhaustive"}
+        vals = chunk["vals"]
+        for N in chunk["Ns"]:
+            total = len(vals) ** n_upper(N)
+            step = chunk["of"] * chunk["stride"]
+            for idx in range(chunk["shard"] * chunk["stride"], total, step):
+                yield {"kind": "mat", "N": N, "upper": upper_from_index(N, idx, vals), "diag": None,
+                       "src": "exhaustive"}
     elif kind == "rnd":
         fam = chunk["family"]
         for i in range(chunk["n"]):
@@ -412,11 +429,6 @@ def _rec_witness(rec):
             "problem": rec["problem"], "skipped": rec.get("skipped")}
 
 
-def _spread(C, N):
-    bmin, _, bmax, _ = enumerate_optima(C, N)
-    return bmin, bmax
-
-
 def _matrix_classes(C, N, ctx):
     """(nontrivial, classes) for a checked matrix."""
     cls = []
@@ -429,24 +441,10 @@ def _matrix_classes(C, N, ctx):
     return nt, cls
 
 
-def _count_ties(C, N, mode):
-    """Does more than one list attain the optimum (exactly, in floats)?"""
-    best = None
-    n = 0
-    last = N - 1
-    for mask in range(1 << (N - 2)):
-        prev = 0
-        s = 0.0
-        for b in range(N - 2):
-            if (mask >> b) & 1:
-                s += C[prev][b + 1]
-                prev = b + 1
-        s += C[prev][last]
-        if best is None or (s < best if mode == MIN else s > best):
-            best, n = s, 1
-        elif s == best:
-            n += 1
-    return n > 1
+def _has_ties(C, N):
+    """Does more than one list attain the minimum or the maximum (exactly, in floats)?"""
+    v = enumerate_optima(C, N, True)
+    return v[4] > 1 or v[5] > 1
 
 
 def run_mat(case, ctx):
@@ -470,7 +468,7 @@ def run_mat(case, ctx):
         cls.append("negative_entries")
     nt, more = _matrix_classes(Cl, N, ctx)
     cls += more
-    if N >= 3 and (_count_ties(Cl, N, MIN) or _count_ties(Cl, N, MAX)):
+    if N >= 3 and _has_ties(Cl, N):
         cls.append("ties_between_optima")
     for label, call in (("MINIMIZE", lambda: seg.optimalPartition(C, MIN, False)),
                         ("MAXIMIZE", lambda: seg.optimalPartition(C, mode=MAX, verbose=False)),
